@@ -69,11 +69,19 @@ def run_streams(chk, rng, fns, cells, pid):
         r = rng.fork(("mp", i))
         entries, rules, letters = tablegen.gen_c06_table(r, risky=r.chance(0.3), directions=("noback", "nofor"))
         tf = work / ("m%d.utb" % i)
-        tf.write_text(tablegen.pass_table_text(entries, rules))
+        text = tablegen.pass_table_text(entries, rules)
+        if r.chance(0.5):
+            # swap classes, grouping pairs, attribute tests with counts, multi-cell indicators
+            text += "\n".join(tablegen.gen_group_swap_rules(r, letters, [0x8000 | e.dots[0] for e in entries])) + "\n"
+        tf.write_text(text)
         gen_tables.append(("unicode.dis," + str(tf), letters + [32]))
     # corpus first: minimised cases that failed once (corpus/<pid>/*.json: table_list, case_line, exact)
     for cf in sorted((common.VERIF / "corpus" / pid.lower()).glob("*.json")):
         c = json.loads(cf.read_text())
+        if "table_text" in c:
+            tp = work / ("corpus_" + cf.stem + ".utb")
+            tp.write_text(c["table_text"])
+            c["table_list"] = c.get("prefix", "") + str(tp)
         res = trans.run_cases(exe, c["table_list"], [c["case_line"]], exact=c.get("exact", 1), env=env, timeout=120)[0]
         chk.count(("corpus", cf.name), nontrivial=True)
         chk.tally("corpus_cases")
